@@ -1,8 +1,8 @@
 (* Properties_C09.v — property C09: suggested code is valid Go and applying a fix never damages the
    file.  Theorem-level part: the edit algebra, the comment fix, the Suggest-template table.
    "Still parses and type-checks" for arbitrary programs is decided by the oracle only (DESIGN.md §9). *)
-From GC Require Import Base Model_Cli Model_Edit Proofs_Edit.
-From GCgen Require Import SuggestTable.
+From GC Require Import Base Model_Cli Model_Edit Proofs_Edit Model_Prec Proofs_Prec.
+From GCgen Require Import SuggestTable PrecTable.
 
 (* Applying a fix changes nothing outside its range, for every file, range and replacement. *)
 Theorem C09_apply_outside_unchanged_prefix : forall src from to repl, from <= String.length src ->
@@ -51,6 +51,92 @@ Theorem C09_suggest_cut_refuted :
                    s_dropped_wildcards := ["$*_"]; s_has_placeholder := true |} = false.
 Proof. vm_compute. auto. Qed.
 Print Assumptions C09_suggest_cut_refuted.
+
+(* ---- Suggest templates are rendered TEXTUALLY ($x := source text of the matched node): precedence ---- *)
+
+(* the rendered text is the printing of the tree the template denotes, for every template and all bindings *)
+Theorem C09_render_is_tree_substitution : forall s e, pp (subst s e) = tsubst s (pp e).
+Proof. exact pp_subst. Qed.
+Print Assumptions C09_render_is_tree_substitution.
+
+(* if every placeholder sits where the template accepts the level its binding is known to have, the rendered
+   text is read by Go's (stratified) expression grammar as exactly that tree ... *)
+Theorem C09_template_subst_parses : forall g g' s tpl, respects g g' s -> wp g tpl = true ->
+  G g' (level g tpl) (tsubst s (pp tpl)) (subst s tpl).
+Proof. exact template_subst_parses. Qed.
+Print Assumptions C09_template_subst_parses.
+
+(* ... and it stays one sub-tree inside EVERY context that accepted the matched code, provided the template is not
+   looser than the pattern it replaces (the context's hole is "@") *)
+Theorem C09_fix_in_context_parses : forall g g' s pat tpl ctx lvl_ctx,
+  respects g g' s -> wp g tpl = true -> level g pat <= level g tpl ->
+  wp (fun y => if String.eqb y "@" then level g pat else g' y) ctx = true ->
+  lvl_ctx = level (fun y => if String.eqb y "@" then level g pat else g' y) ctx ->
+  G g' lvl_ctx (tsubst (hole_sub "@" (subst s tpl)) (pp ctx)) (subst (hole_sub "@" (subst s tpl)) ctx).
+Proof. exact fix_in_context_parses. Qed.
+Print Assumptions C09_fix_in_context_parses.
+
+(* Over the (pattern, template) pairs regenerated from the executed rule IR on every run: every pair satisfies both
+   conditions (what the pattern guarantees about a binding = the tightest position it was matched in, or level 4 for
+   placeholders whose type is known not to be boolean) except the ten pairs below, which are genuinely unsafe on the
+   unchanged tree (recorded findings; witnesses found by the oracle's operand/context variants). *)
+Definition known_prec_unsafe : list (string * string * string) :=
+  [("redundantSprint", "fmt.Sprint($x)", "$x.String()"); ("redundantSprint", "fmt.Sprintf(""%s"", $x)", "$x.String()");
+   ("redundantSprint", "fmt.Sprintf(""%v"", $x)", "$x.String()");
+   ("redundantSprint", "fmt.Sprint($x)", "$x"); ("redundantSprint", "fmt.Sprintf(""%s"", $x)", "$x");
+   ("redundantSprint", "fmt.Sprintf(""%v"", $x)", "$x");
+   ("preferStringWriter", "io.WriteString($w, $s)", "$w.WriteString($s)");
+   ("stringConcatSimplify", "strings.Join([]string{$x, $y}, """")", "$x + $y");
+   ("stringConcatSimplify", "strings.Join([]string{$x, $y, $z}, """")", "$x + $y + $z");
+   ("stringConcatSimplify", "strings.Join([]string{$x, $y}, $glue)", "$x + $glue + $y")].
+Definition is_known_unsafe (e : prec_entry) : bool :=
+  existsb (fun k => let '(g, p, t) := k in String.eqb g (pe_group e) && String.eqb p (pe_pattern e) && String.eqb t (pe_template e))
+          known_prec_unsafe.
+(* diagnostics for a broken obligation: the pairs that are unsafe and not listed *)
+Eval vm_compute in map (fun e => (pe_group e, pe_pattern e, pe_template e, holes_ok e, context_ok e))
+                       (filter (fun e => negb (entry_ok e || is_known_unsafe e)) prec_table).
+Theorem C09_prec_table_ok_partial : forallb (fun e => entry_ok e || is_known_unsafe e) prec_table = true.
+Proof. vm_compute. reflexivity. Qed.
+Print Assumptions C09_prec_table_ok_partial.
+Theorem C09_prec_table_parsed : prec_unparsed = [] /\ (60 <=? length prec_table)%nat = true.
+Proof. vm_compute. auto. Qed.
+Print Assumptions C09_prec_table_parsed.
+
+(* what the table obligation means for a pair that passes it: for all bindings as tight as the pattern guarantees and all
+   contexts that accepted the match, the fixed text is read as the intended tree *)
+Theorem C09_prec_entry_safe : forall e g' s ctx, In e prec_table -> entry_ok e = true ->
+  respects (guar e) g' s ->
+  wp (fun y => if String.eqb y "@" then level (guar e) (pe_pat e) else g' y) ctx = true ->
+  G g' (level (fun y => if String.eqb y "@" then level (guar e) (pe_pat e) else g' y) ctx)
+       (tsubst (hole_sub "@" (subst s (pe_tpl e))) (pp ctx)) (subst (hole_sub "@" (subst s (pe_tpl e))) ctx).
+Proof.
+  intros e g' s ctx _ Hok Hs Hctx. destruct (entry_ok_spec e Hok) as [Hw Hl].
+  eapply fix_in_context_parses; eauto.
+Qed.
+Print Assumptions C09_prec_entry_safe.
+
+(* the two ways an unsafe pair fails, as derivations of a DIFFERENT tree from the rendered text:
+   fmt.Sprint( *p ) => *p.String() is read as *(p.String());  strings.Join([]string{a,b},"")[1:] => a + b[1:] as a + (b[1:]) *)
+Theorem C09_sprint_template_regroups_refuted :
+  G (fun _ => 0) 0 (tsubst sprint_sub (pp sprint_tpl)) sprint_actual /\ sprint_actual <> sprint_intended
+  /\ wp (fun _ => 0) sprint_tpl = false.
+Proof. exact sprint_regroups. Qed.
+Print Assumptions C09_sprint_template_regroups_refuted.
+Theorem C09_concat_template_regroups_refuted :
+  G (fun _ => 0) 0 (tsubst (hole_sub "@" (subst concat_sub concat_tpl)) (pp slice_ctx)) concat_actual
+  /\ concat_actual <> concat_intended.
+Proof. exact concat_regroups. Qed.
+Print Assumptions C09_concat_template_regroups_refuted.
+
+(* non-vacuity: a safe pair of the table with a concrete binding and context *)
+Example C09_example_prec :
+  let e := {| pe_group := "x"; pe_line := 0; pe_pattern := ""; pe_template := "";
+              pe_pat := EBin 3 "==" (EApp (ESel (EAtom "strings") "Compare") "(" ")" [EHole "s1"; EHole "s2"]) (EAtom "0");
+              pe_tpl := EBin 3 "==" (EHole "s1") (EHole "s2"); pe_floor := [("s1", 4); ("s2", 4)] |} in
+  entry_ok e = true
+  /\ pp (subst (fun y => if String.eqb y "s1" then Some (EBin 4 "+" (EAtom "a") (EAtom "b")) else if String.eqb y "s2" then Some (EAtom "c") else None) (pe_tpl e))
+     = [T "a"; T "+"; T "b"; T "=="; T "c"].
+Proof. vm_compute. auto. Qed.
 
 Example C09_example_edit :
   apply_edit "x := a+0; y()" 5 8 "a" = "x := a; y()"
